@@ -1,2 +1,5 @@
 import XyzProofs.Lemmas.Batch
+import XyzProofs.Lemmas.Core
+import XyzProofs.Props.C01
+import XyzProofs.Props.C02
 import XyzProofs.Props.C07
